@@ -12,8 +12,6 @@ Data == JsonDeserialize(IOEnv.SEED_FILE)
 Hist == Data.hist
 WordNAFromFile == {}
 
-Proj(db) == [feats |-> db.feats, rels |-> db.rels, ctr |-> db.ctrP, dups |-> db.dups, dirs |-> db.dirs, nmeta |-> db.nmeta]
-Snap(st, db, ctr) == [st |-> st, db |-> Proj(db), ctrL |-> ctr]
 
 \* one step of a history on the model state m = [st, db, ctr, handed]
 Step(m, s) ==
